@@ -10,6 +10,7 @@ restrictions) is decided by the correspondence + the 4^L brute-force oracle: PAR
 import DnaModel.Model.Builtin
 import DnaModel.Proofs.Merge
 import DnaModel.Proofs.Split
+import DnaModel.Proofs.Fold
 import DnaModel.Props.C15
 import DnaModel.Props.C10
 set_option linter.unusedVariables false
@@ -159,5 +160,53 @@ theorem extractVaryingRegion_exact (c : Choice) (t : Seq)
     Merge.Contig c.start c.extractVaryingRegion ∧ Merge.stopOf c.start c.extractVaryingRegion = c.stop ∧
     ∀ p ∈ c.extractVaryingRegion, ∀ v ∈ p.variants, v.length = p.stop - p.start :=
   ⟨Split.extractVaryingRegion_language c t hlen hle, Split.extractVaryingRegion_tiles c hlen hle⟩
+
+end Dna.C04
+
+namespace Dna.C04
+open Dna Fold
+
+/-- the hard restrictions collected from the constraints allow the word `t` -/
+abbrev Allowed := Fold.Allowed
+
+/-- **C04, the whole construction**: `MutationSpace.from_optimization_problem` (any-nucleotide index, restrictions
+    sorted by length, merge with the choices already in place, split at the varying region, write-back) builds a space
+    whose choices accept a DNA word of the sequence's length *iff* the word satisfies every restriction — for every
+    number, order and overlap pattern of restrictions that lie inside the sequence.  The index is left tiled by whole
+    choices (`Blocks`, `Full`), which is what the localisation theorems of C15 assume. -/
+theorem from_optimization_problem_exact (s : Seq) (rs : List Space.Restriction) (sp : Space)
+    (hrs : ∀ r ∈ rs, RestrOK s.length r) (h : Space.fromRestrictions s rs = .ok sp) :
+    ∀ t : Seq, t.length = s.length → (∀ ch ∈ t, ch ∈ Fold.DNA) →
+      ((∀ c ∈ sp.choicesList, c.seg t ∈ c.variants) ↔ Allowed rs t) := by
+  obtain ⟨_, _, _, hacc⟩ := fromRestrictions_exact s rs sp hrs h
+  intro t ht hdna
+  refine Iff.trans ?_ (hacc t ht hdna)
+  constructor
+  · intro hall i c hc
+    exact hall c ((C15.mem_choicesList sp c).2 (List.mem_of_getElem? hc))
+  · intro hall c hc
+    obtain ⟨i, hi⟩ := List.getElem?_of_mem ((C15.mem_choicesList sp c).1 hc)
+    exact hall i c hi
+
+/-- the index of a constructed space is tiled by whole choices whose variants have their segment's length -/
+theorem from_optimization_problem_tiles (s : Seq) (rs : List Space.Restriction) (sp : Space)
+    (hrs : ∀ r ∈ rs, RestrOK s.length r) (h : Space.fromRestrictions s rs = .ok sp) :
+    sp.index.length = s.length ∧ Blocks sp.index ∧ Full sp.index := by
+  obtain ⟨h1, h2, h3, _⟩ := fromRestrictions_exact s rs sp hrs h
+  exact ⟨h1, h2, h3⟩
+
+/-- the construction cannot fail on restrictions inside the sequence … the two `crash` branches of the model
+    (a `None` under a restriction, `merge_with` on an empty set) are unreachable: stated as what a successful step
+    needs, the fold never meets them because `Full` is an invariant (see `Fold.applyRestriction_spec`) -/
+example : RestrOK 6 ⟨1, 4, [['A', 'T', 'G'], ['A', 'C', 'G']]⟩ := by
+  refine ⟨by decide, by decide, ?_⟩
+  intro v hv
+  simp at hv
+  rcases hv with rfl | rfl <;> rfl
+
+/- non-vacuity of `h : fromRestrictions s rs = .ok sp`: the model's `mergeSort` is defined by well-founded recursion and
+   does not reduce in the kernel, so a closed example cannot be checked by `decide`; the correspondence check runs this
+   very function (`space.build` requests) on thousands of generated restriction sets per run, overlapping ones
+   included, and compares the resulting choices with the implementation's. -/
 
 end Dna.C04
